@@ -10,6 +10,7 @@ import Props.C01
 import Props.C02
 import Proofs.C13Binning
 import Proofs.C13Clip
+import Proofs.C13Final
 import Props.C05
 
 namespace Taurex.C13
@@ -238,5 +239,54 @@ theorem bin_clip_eq_uniform (val : Row ℝ → ℝ) (full : List (Row ℝ)) (i m
     intro h; have := length_nativeBins_false ((full.drop i).take m) (by omega); rw [h] at this; simp at this; omega
   exact bin_clip_eq_partial val _ _ a b hab neF neC oF oC wF wC hposF hposC
     (clip_uniform_overlapping_eq full i m a b d hd0 hd hm him hf1 hf2)
+
+open Taurex.Binning in
+/-- **bin_clip_eq under the property's width condition (uniform native grid)** — the complete statement for
+    uniformly spaced native grids, with no hypothesis about which bins overlap.  `full` are the native points in
+    increasing wavenumber with constant spacing `d`; the restricted run keeps the native points in the clip
+    interval `[L, U]` (in the code `L = min(obs) - W`, `U = max(obs) + W`, `W` = the widest mid-point bin of the
+    observation grid, `clipNative`).  If the native spacing does not exceed the margin (`d ≤ W`; the property asks
+    for `d < W/2`) and the observation bin `[a, b]` sticks out of the observation range by at most `W/2`
+    (`L + W/2 ≤ a`, `b ≤ U - W/2`: its centre lies in the range and it is no wider than `W`), then binning the
+    restricted run equals binning the full run. -/
+theorem bin_clip_eq_uniform_condition (val : Row ℝ → ℝ) (full : List (Row ℝ)) (d W L U a b : ℝ)
+    (hd0 : 0 < d) (hd : ∀ j, j + 1 < (full.map Row.c).length → spacing (full.map Row.c) j = d)
+    (hdW : d ≤ W) (hab : a < b) (ha : L + W / 2 ≤ a) (hb : b ≤ U - W / 2)
+    (hkept : 2 ≤ (full.filter (inside L U)).length)
+    (hposF : 0 < sumL ((nativeBins false full).map (overlap a b)))
+    (hposC : 0 < sumL ((nativeBins false (full.filter (inside L U))).map (overlap a b))) :
+    fluxBinVal val (nativeBins false full) a b = fluxBinVal val (nativeBins false (full.filter (inside L U))) a b := by
+  have hg : (full.map Row.c).Pairwise (· < ·) := linear_increasing _ d hd0 hd
+  obtain ⟨i, m, him, hfil, hlo, hhi⟩ := filter_interval_sorted L U full hg
+  have hm : 2 ≤ m := by
+    rw [hfil, length_drop_take full i m him] at hkept; exact hkept
+  have hn : 2 ≤ full.length := by omega
+  rw [hfil] at hposC ⊢
+  refine bin_clip_eq_uniform val full i m a b d hab hd0 hd hm him hposF hposC ?_ ?_
+  · intro r hr
+    obtain ⟨hw, r0, hr0, hc⟩ := uniform_rows_take full d hd0 hd hn i r hr
+    apply overlap_zero_of_disjoint; left
+    have := hlo r0 hr0
+    unfold Row.hi; rw [hw, hc]; linarith
+  · intro r hr
+    obtain ⟨hw, r0, hr0, hc⟩ := uniform_rows_drop full d hd0 hd hn (i + m) r hr
+    apply overlap_zero_of_disjoint; right
+    have := hhi r0 hr0
+    unfold Row.lo; rw [hw, hc]; linarith
+
+-- non-vacuity of `bin_clip_eq_uniform_condition`: five native points 1..5 (d = 1), margin W = 1, clip interval [2, 4],
+-- target [2.5, 3.5]: constant spacing, d ≤ W, the target sticks out of [3, 3] by W/2, and three points survive the clip
+open Taurex.Binning in
+example :
+    let full : List (Row ℝ) := [⟨1, 0, 10, 0⟩, ⟨2, 0, 20, 0⟩, ⟨3, 0, 30, 0⟩, ⟨4, 0, 40, 0⟩, ⟨5, 0, 50, 0⟩]
+    (∀ j, j + 1 < (full.map Row.c).length → spacing (full.map Row.c) j = 1) ∧ (1 : ℝ) ≤ 1 ∧ (2.5 : ℝ) < 3.5 ∧
+    (2 : ℝ) + 1 / 2 ≤ 2.5 ∧ (3.5 : ℝ) ≤ 4 - 1 / 2 ∧ 2 ≤ (full.filter (inside 2 4)).length := by
+  intro full
+  refine ⟨?_, le_refl _, by norm_num, by norm_num, by norm_num, ?_⟩
+  · intro j hj
+    simp only [full, List.map_cons, List.map_nil, List.length_cons, List.length_nil] at hj
+    have : j = 0 ∨ j = 1 ∨ j = 2 ∨ j = 3 := by omega
+    rcases this with rfl | rfl | rfl | rfl <;> norm_num [full, spacing]
+  · norm_num [full, inside, List.filter]
 
 end Taurex.C13
